@@ -1,7 +1,8 @@
 // yieldgen instruments Go source files for the S2 "tasksim" scheduler:
 //   - vy.P("file:line") before every statement of every function body
 //     (not inside function literals passed as call arguments: those may run
-//     under a foreign lock, e.g. xsync's LoadOrCompute callbacks);
+//     under a foreign lock, e.g. xsync's LoadOrCompute callbacks - except the
+//     callbacks of Map.Range, which xsync and sync call with no lock held);
 //   - `go f(a...)`  ->  arguments evaluated in place, then vy.Go(func(){ f(a...) });
 //   - `x.Lock()` / `x.RLock()` statements -> vy.Lock(x.TryLock) / vy.Lock(x.TryRLock),
 //     a try-lock/yield loop, so a parked lock holder cannot wedge the scheduler.
@@ -108,6 +109,18 @@ func (in *inst) nested(s ast.Stmt) {
 		in.clauses(st.Body)
 	case *ast.LabeledStmt:
 		in.nested(st.Stmt)
+	case *ast.ExprStmt:
+		// xsync/sync Map.Range call their callback outside any bucket lock, so the sweep is
+		// not atomic in reality either: yield between callback statements
+		if call, ok := st.X.(*ast.CallExpr); ok {
+			if sel, ok := call.Fun.(*ast.SelectorExpr); ok && (sel.Sel.Name == "Range" || sel.Sel.Name == "RangeRelaxed") {
+				for _, a := range call.Args {
+					if lit, ok := a.(*ast.FuncLit); ok {
+						in.block(lit.Body)
+					}
+				}
+			}
+		}
 	case *ast.DeferStmt:
 		if lit, ok := st.Call.Fun.(*ast.FuncLit); ok {
 			in.block(lit.Body) // deferred closures run on the task itself
